@@ -446,6 +446,69 @@ func runC02(w *World, r *Report) {
 	r.Rule("C02.passthrough-sides", "the helper a pass-through node derives from its neighbour fills its input-side slots (zero value, empty stream — what a DAG channel hands a node triggered without data) from ONE side of the neighbour (shared with C04.role-uniform, package compose)", 5)
 	ruleRoleUniform(w, r, "C02.passthrough-sides", "compose")
 
+	r.Rule("C02.dependencies-from-control-only", "resolveCompletedTasks reports a finished node as a control dependency only to its control successors and to the nodes its branches selected: no key it registers in the dependency table derives from the node's data successors (writeTo) — a 'ready' reported to a data-only successor overwrites the 'skipped' mark a non-selecting branch has just set", 2)
+	{
+		rct := w.Fn("compose", "runner.resolveCompletedTasks")
+		fWriteTo := w.Field("compose", "chanCall", "writeTo")
+		var fromWriteTo func(v ssa.Value, d int, seen map[ssa.Value]bool) bool
+		fromWriteTo = func(v ssa.Value, d int, seen map[ssa.Value]bool) bool {
+			if v == nil || d > 12 || seen[v] {
+				return false
+			}
+			seen[v] = true
+			if isLoadOfField(v, fWriteTo) {
+				return true
+			}
+			switch x := v.(type) {
+			case *ssa.Phi:
+				for _, e := range x.Edges {
+					if fromWriteTo(e, d+1, seen) {
+						return true
+					}
+				}
+			case *ssa.Call:
+				if isBuiltin(x, "append") {
+					for _, a := range x.Call.Args {
+						if fromWriteTo(a, d+1, seen) {
+							return true
+						}
+					}
+				}
+			case *ssa.Slice:
+				return fromWriteTo(x.X, d+1, seen)
+			case *ssa.Extract:
+				return false
+			}
+			return false
+		}
+		n := 0
+		instrs(rct, func(in ssa.Instruction) {
+			mu, ok := in.(*ssa.MapUpdate)
+			if !ok {
+				return
+			}
+			// the dependency table: map[string][]string
+			mt, isMap := mu.Map.Type().Underlying().(*types.Map)
+			if !isMap {
+				return
+			}
+			if sl, isSl := mt.Elem().Underlying().(*types.Slice); !isSl || sl.Elem().String() != "string" {
+				return
+			}
+			n++
+			bad := false
+			if u, isU := mu.Key.(*ssa.UnOp); isU && u.Op == token.MUL {
+				if ia, isIA := u.X.(*ssa.IndexAddr); isIA {
+					bad = fromWriteTo(ia.X, 0, map[ssa.Value]bool{})
+				}
+			}
+			r.Check(!bad, "C02.dependencies-from-control-only", fmt.Sprintf("resolveCompletedTasks: dependency registration #%d", n), mu.Pos(), "keys come from controls / the branches' selection", "the list whose elements are registered as control successors includes the data successors (writeTo): in a Workflow a node that is an end node of the finished node's branch AND takes its output through a data-only dependency, not selected by the branch, has its skip mark overwritten by a spurious 'ready' — if its other control predecessor skips it too it is no longer all-skipped and executes although nobody routed to it")
+		})
+		if n < 2 {
+			undecidedf("C02.dependencies-from-control-only: only %d dependency registrations found in resolveCompletedTasks", n)
+		}
+	}
+
 	r.Rule("C02.visits-all", "the loops that hand a finished node's output and dependencies to its successors (resolveCompletedTasks, updateValues, updateDependencies, createTasks) are left only when exhausted or with an error: a duplicate or data-less target met first must not end the delivery for the targets listed after it (shared with C01 / C03)", 4)
 	ruleLoopsTotal(w, r, "C02.visits-all", []*ssa.Function{
 		w.Fn("compose", "runner.resolveCompletedTasks"), w.Fn("compose", "channelManager.updateValues"), w.Fn("compose", "channelManager.updateDependencies"), w.Fn("compose", "runner.createTasks"),
@@ -453,6 +516,7 @@ func runC02(w *World, r *Report) {
 
 	shareRule(w, r, "C02.fanin-merge-pure", "assembling a fan-in node's input writes through none of the values being merged: in Invoke mode every successor of a node is handed the same map value, so a merge that accumulates into one predecessor's output gives a sibling entries from a node that never routed to it", 2, "C01", "C01.merge-pure")
 	shareRule(w, r, "C02.late-completions-fully-applied", "tasks that finish in the same step as a rerun / nested interrupt have their values AND their control dependencies folded into the channels, in every trigger mode: after the resume the join they routed to becomes ready", 2, "C03", "C03.completion-fully-applied")
+	shareRule(w, r, "C02.decided-marks-survive-save", "what an interrupt writes is the run's channel table itself: a DAG channel that holds no value still holds the marks of finished and skipped predecessors, and a selection of 'channels with values' loses them (the join waits for ever after the resume)", 2, "C05", "C05.nothing-dropped-at-save")
 
 	r.Rule("C02.workflow-flags", "noDirectDependency -> (noControl=true,noData=false); dependencyWithoutInput -> (false,true); default -> (false,false); workflow branches skipData=true", 4)
 	adr := w.Fn("compose", "WorkflowNode.addDependencyRelation")
